@@ -384,13 +384,21 @@ def build(spec: dict):
         chunk = 1 << 16
         nch = (blen + chunk - 1) // chunk
         idxs = range(nch) if nch <= 4096 else sorted({c[0] * cs // chunk for c in spec["clusters"]} | {0, nch - 1})
+        head = b""
+        if backing.get("nested_head") and not spec.get("_nested"):
+            # a raw backing object whose own content is a (small, complete) qcow2 image stored at guest offset 0: raw means raw
+            head = nested_image()[: blen]
+            bfh.put(0, head)
+            blay.put(0, head)
         for i in idxs:
             if i >= nch:
                 continue
             ln = min(chunk, blen - i * chunk)
-            p = Pat((0xBAC << 48) | (layer << 32) | i, ln)
-            bfh.put(i * chunk, p)
-            blay.put(i * chunk, p)
+            skip = min(ln, max(0, len(head) - i * chunk))
+            if ln > skip:
+                p = Pat((0xBAC << 48) | (layer << 32) | i, ln - skip, base=skip)
+                bfh.put(i * chunk + skip, p)
+                blay.put(i * chunk + skip, p)
         layers["backing"] = blay
 
     n_l2 = len(l2_tables)
@@ -432,3 +440,16 @@ def _put_subclusters(lay, goff, ln, sc, alloc, zero, key):
             elif a:
                 lay.put(goff + lo, Pat(key, hi - lo, base=lo))
         i = j
+
+
+_NESTED = []
+
+
+def nested_image() -> bytes:
+    """A complete little qcow2 image (512-byte clusters, two data clusters) used as *content* of raw objects."""
+    if not _NESTED:
+        spec = {"version": 3, "cluster_bits": 9, "size": 16 << 9, "header_length": 112, "ext_l2": False, "data_file": False,
+                "clusters": [[0, "n", 0, None], [2, "n", 1, None]], "l2_interleave": False, "l2_slots": {}, "meta_order": ["l1", "refcount", "snap", "l2"],
+                "far_base": 0, "copied": True, "comp_shift": 0, "cgaps": [0], "comp_far": 0, "layer": 0x7E, "_nested": True}
+        _NESTED.append(build(spec)[0].materialize())
+    return _NESTED[0]
